@@ -350,6 +350,10 @@ def spline (ks : List (Knot FX)) (impl : Out) : Option String :=
           let tolB := u53 * 4096 * (ratAbs b0.2 + ratAbs b1.2 + ratAbs k.2) * (1 + (ratAbs k.1) / (b1.1 - b0.1)) ^ 3 / (b1.1 - b0.1)
           if ratAbs (evalPolyRat (derivCoeffs ca) k.1 - evalPolyRat (derivCoeffs cb) k.1) > tolA + tolB + u53 * 4096 * (ratAbs (evalPolyRat (derivCoeffs ca) k.1))
           then some "first derivative jumps at an interior knot" else none
+    | some _, some kr, none =>
+      -- the data are finite: a NaN / infinite coefficient for strictly increasing abscissae is a violation
+      if (List.zip kr kr.tail).all (fun (a, b) => a.1 < b.1) then some "non-finite coefficient for finite knots with strictly increasing abscissae"
+      else none
     | _, _, _ => none
   | _ => some "unexpected output shape"
 
